@@ -58,6 +58,9 @@ case "${1:-}" in
     SC=.scratch/pair.$$; mkdir -p $SC; overlay $SC/ov
     build .build/vsched-pair ./cmd/vsched -overlay "$SC/ov/overlay.json"; rm -rf $SC
     buildyield
+    if grep -Eq '"property": *"C08"' "$2"; then   # C08's cases belong to the scheduler binary (built with the overlay)
+      .build/vsched-pair replay "$2"; rc=$?; rm -f .build/vcheck.$$; exit $rc
+    fi
     .build/vcheck.$$ replay "$2"; rc=$?; rm -f .build/vcheck.$$; exit $rc;;
   "") echo "usage: run.sh <ID> <quick|thorough> | setup | replay <path>" >&2; exit 2;;
 esac
